@@ -142,6 +142,19 @@ def run_one(prop, tier, root, replay=None, write_ev=True, quiet=False, selftest_
         return 2
     L = Ledger(prop, tier, root)
     t0 = time.time()
+    # analysis budget: a rule that explodes on some tree must end in "no verdict", not hang the run (SA_BUDGET_S overrides)
+    try:
+        import signal as _signal
+
+        budget = int(os.environ.get("SA_BUDGET_S", "600"))
+
+        def _over(_sig, _frm):
+            raise AnalysisError(f"analysis budget of {budget} s exceeded")
+
+        _signal.signal(_signal.SIGALRM, _over)
+        _signal.alarm(budget)
+    except Exception:
+        pass
     try:
         repo = Repo(root)
         type(L).REPO_FUNC_NAMES = {f.name for f in repo.functions.values()} - {"get", "pop", "items", "keys", "values", "copy", "start", "end", "read", "write", "tell", "seek"}
